@@ -9,6 +9,8 @@ import (
 	"bytes"
 	"fmt"
 	"io/ioutil"
+	"runtime/debug"
+	"syscall"
 	"testing"
 
 	"github.com/pilosa/pilosa/internal/vkit"
@@ -223,12 +225,37 @@ func TestVerifWitness_D5_Roaring(t *testing.T) {
 	_ = bytes.MinRead
 }
 
-// a copy whose capacity equals its length: reads past the end are then caught by the runtime
-// instead of silently reading the spare capacity
+// vc06Exact returns a copy of d that ends exactly at an inaccessible guard page, with capacity == length:
+// a read past the end — also one made through an unsafe pointer, which the Go runtime does not bounds check — faults.
+// With debug.SetPanicOnFault the fault is a panic that vc06Try reports together with the input.
+var vc06Guard struct {
+	region []byte
+	usable int
+}
+
 func vc06Exact(d []byte) []byte {
-	out := make([]byte, len(d))
+	debug.SetPanicOnFault(true)
+	page := syscall.Getpagesize()
+	if vc06Guard.region == nil {
+		usable := 64 * page // 256 KiB: larger than any generated payload
+		mem, err := syscall.Mmap(-1, 0, usable+page, syscall.PROT_READ|syscall.PROT_WRITE, syscall.MAP_ANON|syscall.MAP_PRIVATE)
+		if err != nil {
+			panic(err)
+		}
+		if err := syscall.Mprotect(mem[usable:], syscall.PROT_NONE); err != nil {
+			panic(err)
+		}
+		vc06Guard.region, vc06Guard.usable = mem, usable
+	}
+	if len(d) > vc06Guard.usable {
+		out := make([]byte, len(d))
+		copy(out, d)
+		return out[:len(d):len(d)]
+	}
+	start := vc06Guard.usable - len(d)
+	out := vc06Guard.region[start:vc06Guard.usable:vc06Guard.usable]
 	copy(out, d)
-	return out[:len(d):len(d)]
+	return out
 }
 
 func vc06LyingCard() []byte {
@@ -265,8 +292,8 @@ func TestVerifWitness_DP11(t *testing.T) {
 // D6: a rejected import must not leave the containers before the malformed one applied.
 func TestVerifWitness_D6(t *testing.T) {
 	enc := vc06EncodePilosa([]vc06Cont{{Key: 0, Typ: 1, Vals: []uint16{5}}, {Key: 1, Typ: 1, Vals: []uint16{6}}})
-	d := vc06Exact(enc.Data)
-	d = d[:len(d)-2] // the second container is cut off
+	d := append([]byte(nil), enc.Data...)
+	d = vc06Exact(d[:len(d)-2]) // the second container is cut off
 	b := NewBTreeBitmap()
 	_, _, err := b.ImportRoaringBits(d, false, false, 16)
 	if err == nil {
